@@ -148,3 +148,95 @@ func SortedUnique(keys []string) []string {
 	}
 	return out[:j]
 }
+
+// ---- structured medium-size inputs (added after seeded round 14) ---------------------------------------------------
+// Exhaustive enumeration stops at a few words and independent random bits practically never produce "exactly four
+// all-ones words after at least five empty ones", "8 full, 8 empty, 8 full words on a 512-bit grid" or "a run of 16 377
+// equal values that starts at a multiple of 16 384". These generators build inputs from RUNS whose lengths sit on and
+// next to powers of two, starting at arbitrary offsets, so that every internal block size an implementation may have
+// chosen is met exactly, one short and one over.
+
+var runLens = []int{1, 2, 3, 4, 5, 7, 8, 9, 12, 15, 16, 17, 24, 31, 32, 33, 48, 63, 64, 65, 127, 128, 129}
+
+// RunBitmap returns a bitmap of up to about maxWords words made of runs of all-zero, all-one, random and single-bit words.
+func RunBitmap(r *Rand, maxWords int) []uint64 {
+	var bm []uint64
+	for i := r.Intn(13); i > 0; i-- { // the grid of everything that follows starts at an arbitrary word
+		bm = append(bm, ZooWord(r, r.Intn(NWordClasses)))
+	}
+	kind := r.Intn(4)
+	for len(bm) < maxWords {
+		n := runLens[r.Intn(len(runLens))]
+		if r.Intn(3) == 0 {
+			n = runLens[r.Intn(12)]
+		}
+		for j := 0; j < n && len(bm) < maxWords; j++ {
+			switch kind {
+			case 0:
+				bm = append(bm, 0)
+			case 1:
+				bm = append(bm, ^uint64(0))
+			case 2:
+				bm = append(bm, r.Uint64())
+			default:
+				bm = append(bm, 1<<uint(r.Intn(64)))
+			}
+		}
+		// mostly alternate between empty and full runs, sometimes something else in between
+		switch {
+		case r.Intn(4) == 0:
+			kind = r.Intn(4)
+		case kind == 0:
+			kind = 1
+		default:
+			kind = 0
+		}
+		if r.Intn(40) == 0 {
+			break
+		}
+	}
+	return bm
+}
+
+// RunValues returns a list of up to max values made of runs of equal values whose lengths sit on and next to powers
+// of two up to 2^14 (a run of the maximal length makes the following runs start on that grid).
+func RunValues(r *Rand, max int) []uint64 {
+	lens := []int{1, 2, 7, 8, 9, 63, 64, 65, 255, 256, 257, 1023, 1024, 1025, 4095, 4096, 4097, 16377, 16380, 16383, 16384, 16385}
+	var out []uint64
+	for len(out) < max {
+		n := lens[r.Intn(len(lens))]
+		if r.Intn(3) == 0 {
+			n = 16384
+		}
+		v := r.Uint64()
+		if r.Intn(3) == 0 {
+			v = [4]uint64{0, ^uint64(0), 1, 0x5555555555555555}[r.Intn(4)]
+		}
+		for j := 0; j < n && len(out) < max; j++ {
+			out = append(out, v)
+		}
+		if r.Intn(12) == 0 {
+			break
+		}
+	}
+	return out
+}
+
+// PeriodicBytes returns a byte string made of a short chunk repeated many times (periods 1..16, chunks with equal
+// leading bytes, one differing byte), with an arbitrary prefix and suffix.
+func PeriodicBytes(r *Rand) []byte {
+	p := []int{1, 2, 3, 4, 7, 8, 8, 8, 9, 16}[r.Intn(10)]
+	chunk := make([]byte, p)
+	base := []byte{0, ' ', 'a', 0xff, 0x80}[r.Intn(5)]
+	for i := range chunk {
+		chunk[i] = base
+	}
+	for k := r.Intn(3); k > 0; k-- {
+		chunk[p-1-r.Intn((p+1)/2)] = r.Byte()
+	}
+	out := ZooBytes(r, r.Intn(10))
+	for k := 16 + r.Intn(30); k > 0; k-- {
+		out = append(out, chunk...)
+	}
+	return append(out, ZooBytes(r, r.Intn(10))...)
+}
